@@ -51,7 +51,7 @@ def history(rng, case, idx):
     big = (case.get('params') or {}).get('big')
     w = World(rng, case, max_plate=(8, 12) if (big and rng.random() < 0.1) else (4, 6))
     w.populate(n_containers=rng.randint(2, 4), n_plates=rng.randint(1, 2))
-    weights = {'cc': 8, 'cp': 4, 'pc': 4, 'pp': 4, 'remove': 1, 'fill': 1, 'observe': 0, 'newc': 1}
+    weights = {'cc': 8, 'cp': 4, 'pc': 4, 'pp': 4, 'remove': 1, 'fill': 1, 'observe': 0, 'newc': 1, 'kept': 3}
     for _ in range(rng.randint(8, 30)):
         w.history_step(weights)
 
